@@ -281,6 +281,22 @@ func CloneAndProcessTree(root *html.Node, pageURL *nurl.URL) *html.Node {
 	return CloneAndProcessList(GetOutputNodes(root), pageURL)
 }
 
+// IsForeignRawTextElement reports whether node is an SVG or MathML element that carries
+// the name of one of HTML's raw text elements. Inside foreign content such an element holds
+// ordinary character data, but the HTML serializer goes by the name alone and writes that
+// data out unescaped, which turns it into markup once the output is parsed again.
+func IsForeignRawTextElement(node *html.Node) bool {
+	if node.Type != html.ElementNode || node.Namespace == "" {
+		return false
+	}
+
+	switch node.Data {
+	case "iframe", "noembed", "noframes", "noscript", "plaintext", "script", "style", "xmp":
+		return true
+	}
+	return false
+}
+
 // GetOutputNodes returns list of relevant nodes for output from a subtree.
 func GetOutputNodes(root *html.Node) []*html.Node {
 	outputNodes := []*html.Node{}
@@ -294,6 +310,11 @@ func GetOutputNodes(root *html.Node) []*html.Node {
 			// Hidden elements must not end up in the output, and neither
 			// must script and style, whatever display they claim inline.
 			if tagName := dom.TagName(node); tagName == "script" || tagName == "style" {
+				return false
+			}
+
+			// Neither must character data that would come out as markup.
+			if IsForeignRawTextElement(node) {
 				return false
 			}
 
